@@ -184,6 +184,24 @@ def nontrivial(case):
     return True
 
 
+def assigned_partnames():
+    """the part names python-pptx itself assigns: every partname_template of a part class (read from the live classes),
+    instantiated with 1 and with 12"""
+    import importlib
+    import inspect
+    import pkgutil
+
+    import pptx.parts
+    out = []
+    for mi in pkgutil.iter_modules(pptx.parts.__path__):
+        mod = importlib.import_module("pptx.parts." + mi.name)
+        for _n, cls in sorted(vars(mod).items()):
+            t = getattr(cls, "partname_template", None) if inspect.isclass(cls) else None
+            if isinstance(t, str) and "%d" in t:
+                out += [t % 1, t % 12]
+    return sorted(set(out))
+
+
 def written_targets(ck, rt_cases, rng, n):
     """The property speaks of the relationship target WRITTEN for a source -> target pair: relative_ref's answer goes
     through _Relationships / CT_Relationships into the Target attribute of the serialised rels item.  For sampled pairs
@@ -192,6 +210,7 @@ def written_targets(ck, rt_cases, rng, n):
     from pptx.opc.package import Part, _Relationships
     from pptx.opc.packuri import PackURI
     pairs = rt_cases if len(rt_cases) <= n else rng.sample(rt_cases, n)
+    pairs = list(pairs) + [("rt", src, tgt) for tgt in assigned_partnames() for src in ("/ppt/slides/slide1.xml", "/ppt/presentation.xml", tgt)]
     for _k, src, tgt in pairs:
         try:
             s_uri, t_uri = PackURI(src), PackURI(tgt)
